@@ -25,7 +25,10 @@ struct Comparer<T, enable_if_t<IsString<T>::value>> : ComparerBase {
   explicit Comparer(T value) : rhs(value) {}
 
   CompareResult visit(JsonString lhs) {
-    int i = stringCompare(adaptString(rhs), adaptString(lhs));
+    auto str = adaptString(rhs);
+    if (str.isNull())
+      return COMPARE_RESULT_DIFFER;
+    int i = stringCompare(str, adaptString(lhs));
     if (i < 0)
       return COMPARE_RESULT_GREATER;
     else if (i > 0)
